@@ -222,7 +222,7 @@ void run_history(Tape &t, Ctx &c) {
         prm.coarse_enough = w < 11 ? ce[w] : w == 11 ? static_cast<unsigned>(n / 2) : 3000u; // 3000 is the library default (single level here)
         int ml = static_cast<int>(t.u(0, 9));
         prm.max_levels = ml == 0 || ml > 5 ? std::numeric_limits<unsigned>::max() : ml == 5 ? 6u : static_cast<unsigned>(ml);
-        if (kn.k >= 2 && prm.max_levels > 4) prm.max_levels = 4; // with >=2 null-space vectors a level need not shrink: keep the hierarchy finite
+        if (kn.k >= 2 && prm.max_levels > 4) prm.max_levels = 4; // cost guard: with >=2 null-space vectors a level may fail to shrink (F-nullspace-no-shrink); keep the hierarchy finite
         prm.direct_coarse = !t.chance(1, 4);
         prm.npre = static_cast<unsigned>(t.u(1, 3)) % 3;   // 1,2,0
         prm.npost = static_cast<unsigned>(t.u(1, 3)) % 3;
@@ -270,6 +270,7 @@ void run_history(Tape &t, Ctx &c) {
 
     Csr<double> K0s = sorted_copy(K0);
     ld worst = 0;
+    std::string no_shrink; // first coarsening step that did not shrink (only possible with nullspace.cols >= 2)
     auto check_levels = [&](const std::vector<LevelView> &v, const Log &lg, const Csr<double> &Ks, bool construction, const std::string &when) {
         // chain of matrices: level 0 holds the sorted system matrix, level l+1 holds sort_rows(coarse_operator(level l))
         size_t ncoarse = lg.coarse.size();
@@ -289,8 +290,12 @@ void run_history(Tape &t, Ctx &c) {
                     VF_REQUIRE(same_bits(r.P, sorted_copy(tr.P)) && same_bits(r.R, sorted_copy(tr.R)), when << ": coarse_operator on level " << l << " did not receive the (row-sorted) operators returned by transfer_operators");
                     if (ci.r_is_adjoint) require_adjoint(tr.P, tr.R, when + ": level " + std::to_string(l) + " restriction");
                     VF_REQUIRE(tr.P.n == cur.n && tr.R.m == cur.n && tr.P.m == tr.R.n, when << ": level " << l << " transfer operator shapes P " << tr.P.n << "x" << tr.P.m << " R " << tr.R.n << "x" << tr.R.m);
-                    if (ci.nullspace <= 1) VF_REQUIRE(tr.P.m < cur.n, when << ": level " << l + 1 << " has " << tr.P.m << " unknowns, level " << l << " has " << cur.n << " (sizes must strictly decrease)");
-                    else { VF_REQUIRE(tr.P.m <= cur.n, when << ": level " << l + 1 << " has " << tr.P.m << " unknowns, more than level " << l << " (" << cur.n << ")"); if (tr.P.m == cur.n) c.label("nullspace>=2:level-did-not-shrink"); }
+                    // level sizes strictly decrease.  With >= 2 near-null-space vectors a step can keep the size (every aggregate has exactly
+                    // nullspace.cols unknowns, nothing removed): listed finding F-nullspace-no-shrink, asserted at the end of the case so that
+                    // every other check still runs first.  Growth, or a non-shrinking step with <= 1 vectors, is a plain violation.
+                    VF_REQUIRE(tr.P.m <= cur.n, when << ": level " << l + 1 << " has " << tr.P.m << " unknowns, more than level " << l << " (" << cur.n << ")");
+                    if (tr.P.m == cur.n && ci.nullspace >= 2) { if (no_shrink.empty()) { std::ostringstream os; os << "level " << l + 1 << " has " << tr.P.m << " unknowns, level " << l << " has " << cur.n << " (sizes must strictly decrease; nullspace.cols=" << ci.nullspace << ")"; no_shrink = os.str(); } }
+                    else VF_REQUIRE(tr.P.m < cur.n, when << ": level " << l + 1 << " has " << tr.P.m << " unknowns, level " << l << " has " << cur.n << " (sizes must strictly decrease)");
                 }
                 VF_REQUIRE(v[l].P && v[l].R, when << ": level " << l << " lacks transfer operators");
                 VF_REQUIRE(same_bits(from_crs(*v[l].P), r.P) && same_bits(from_crs(*v[l].R), r.R), when << ": operators stored in level " << l << " differ from those used for the coarse operator");
@@ -417,6 +422,12 @@ void run_history(Tape &t, Ctx &c) {
     if (prm.pre_cycles == 0) c.label("pre_cycles=0");
     if (worst > 0.05) c.label("galerkin-err>0.05tol");
     if (worst > 0.5) c.label("galerkin-err>0.5tol");
+    // ---- last: the strict-decrease clause in the listed region (all other assertions of this case have passed at this point)
+    if (!no_shrink.empty()) {
+        c.label("nullspace>=2:level-did-not-shrink");
+        if (c.known("F-nullspace-no-shrink")) return;
+        VF_REQUIRE(false, "construction: " << no_shrink << " - with max_levels unlimited the setup would not terminate");
+    }
 }
 
 // one coarsening per TU (compile time); the relaxation is decoded from the tape
